@@ -96,6 +96,15 @@ impl Search {
             self.fails(fails, &xs[..=k]);
             if !ok { return; }
         }
+        // a Range seeded through its constructor with the first value of the dataset and updated with the rest is the range of the whole dataset
+        if let Some((first, rest)) = xs.split_first() {
+            let mut r = barter::statistic::summary::dataset::dispersion::Range::init(*first);
+            for v in rest { r.update(*v); }
+            let b = batch(xs);
+            if r.low != b.low || r.high != b.high || r.range() != b.high - b.low {
+                self.fails(vec![(L_RANGE, format!("Range::init(first value) then update with the rest: low {} high {} range() {}", r.low, r.high, r.range()), format!("low {} high {} range {}", b.low, b.high, b.high - b.low))], xs);
+            }
+        }
         if orders { self.order(&s, xs); }
     }
 }
